@@ -76,10 +76,11 @@ def main():
         if keep and valid:
             dst = os.path.join("/verif/seeded", keep)
             os.makedirs(dst, exist_ok=True)
-            for f in ("patch.diff", "notes.md"):
-                if os.path.exists(os.path.join(src, f)):
-                    shutil.copy(os.path.join(src, f), os.path.join(dst, f))
-            open(os.path.join(dst, "demo.py"), "w").write(open(demo).read())
+            if os.path.realpath(dst) != os.path.realpath(src):
+                for f in ("patch.diff", "notes.md"):
+                    if os.path.exists(os.path.join(src, f)):
+                        shutil.copy(os.path.join(src, f), os.path.join(dst, f))
+                open(os.path.join(dst, "demo.py"), "w").write(open(demo).read())
             meta = {"breaks_property": prop, "origin": "independent sub-agent given only the property text and a scratch worktree",
                     "confirmed": {"demo_on_clean_tree_exit": out["demo_clean_exit"], "test_suite_with_patch": out.get("tests"),
                                   "demo_with_patch_exit": out["demo_patched_exit"]},
